@@ -24,7 +24,7 @@ def rand_ops(rng, ids, n):
     for _ in range(n):
         i = rng.choice(ids + [9999]) if rng.random() < 0.9 else 424242
         if rng.random() < 0.5:
-            ops.append(["relax", i, "why%d" % rng.randint(0, 3),
+            ops.append(["relax", i, "" if rng.random() < 0.3 else "why%d" % rng.randint(0, 3),
                         sorted([["a%d" % k, str(rng.randint(0, 9))] for k in range(rng.randint(0, 2))])])
         else:
             ops.append(["restore", i])
